@@ -302,6 +302,12 @@ class CallMixin:
                 raise Unsupported(f"construction of ast.{name}")
             if kind == "pyclass":
                 raise Unsupported(f"call of python class {name} in spec")
+        if isinstance(fv, VOpaque):
+            # a function-valued parameter of a declared opaque type: its behaviour is the trusted model `<Type>.__call__`
+            h = EXTERNALS.get(f"{fv.ty.name}.__call__")
+            if h is not None:
+                self.external_used.add(f"{fv.ty.name}.__call__")
+                return h(self, [fv] + list(args), kwargs, lineno)
         raise Unsupported(f"call of {fv} at line {lineno}")
 
     def call_uf(self, name, args):
